@@ -321,7 +321,7 @@ def check_C13(ctx):
             ctx.cov["evaluations"] += hrep["evaluations"]
             ctx.cov["encoder_sessions_and_user_types"] = {k: v for k, v in hrep.get("distribution", {}).items()}
             for v in hrep["violations"][:5]:
-                if v.get("kind") in ("encoder-session", "user-type", "user-type-tag"):
+                if v.get("kind") in ("encoder-session", "user-type", "user-type-tag", "user-schema", "user-schema-bytes"):
                     ctx.violation(v["kind"], v)
     if broken and not ctx.violations:
         ctx.violation("theorem", broken, found_input=False)
